@@ -13,6 +13,7 @@ mod alloc;
 mod checks;
 mod exec;
 mod explore;
+mod faults;
 mod ledger;
 mod model;
 mod report;
@@ -168,6 +169,7 @@ fn run(args: &[String]) -> Result<(), String> {
         "C01" | "C02" | "C03" | "C11" | "C17" | "C20" => {
             with_n!(n, [checks::bfs_check], &prop, &o, &mut rep)
         }
+        "C05" | "C06" | "C10" => with_n!(n, [faults::fault_check], &prop, &o, &mut rep),
         _ => return Err(format!("unknown property {}", prop)),
     }
     rep.wall_s = t0.elapsed().as_secs_f64();
@@ -183,6 +185,7 @@ fn replay(args: &[String]) -> Result<i32, String> {
     let case = checks::Case { prop: prop.clone(), n, ctor: g(2), recipe: g(3), filling: g(4), act: g(5), fault: g(6), extra: g(7) };
     let r = match prop.as_str() {
         "C01" | "C02" | "C03" | "C11" | "C17" | "C20" => with_n!(n, [checks::replay_bfs], &case),
+        "C05" | "C06" | "C10" => with_n!(n, [faults::replay_fault], &case),
         _ => return Err(format!("unknown property {}", prop)),
     };
     DONE.store(true, Ordering::Relaxed);
